@@ -35,6 +35,31 @@ Proof.
   exact (tunnel_complete rc c a id0 ops st pkts t0 Hc Hcompat Hid Hns Hlen Hsz Hrun Hpk Hwf Hnone).
 Qed.
 
+(* the same with a fair reader instead of "the stream was read to its end": as many Read() calls as the stream has
+   bytes, each finding bytes available on the child *)
+Theorem tunnel_over_packetized_fair :
+  forall rc c a id0 ops st pkts t0 mtu wops wst out wrs script rst rest rrs,
+    scfg_ok c -> compat c rc -> id0 < two32 -> no_setid ops ->
+    N.of_nat (length (added ops)) <= two32 ->
+    Forall (fun m => lenN m < two32) (added ops) ->
+    srun c (s_init id0) ops = (st, pkts) -> s_pkt st = [] ->
+    tbl_wf t0 -> tbl_find a t0 = None ->
+    mtu < two32 -> wops_nonempty wops ->
+    Forall (fun x => mtu <= fst (fst x) /\ 0 < snd (fst x) /\ 0 < snd x) script ->
+    (length out <= length script)%nat ->
+    pwrites mtu pw_init wops = (wst, out, wrs) -> taken wops wrs = pkts -> pw_buffered wst = false ->
+    preads mtu pr_init out script = (rst, rest, rrs) ->
+    exists done,
+      added ops = done ++ s_q st
+      /\ snd (recv_all rc t0 (map (pair a) (handed rrs))) = map (pair a) (filter (fits rc) done).
+Proof.
+  intros rc c a id0 ops st pkts t0 mtu wops wst out wrs script rst rest rrs
+         Hc Hcompat Hid Hns Hlen Hsz Hrun Hpk Hwf Hnone Hmtu Hne Hsc Hl Hw Htk Hnb Hr.
+  destruct (packetized_transport_delivers_all mtu wops wst out wrs script rst rest rrs Hmtu Hne Hsc Hl Hw Hnb Hr) as [Hhd _].
+  rewrite Hhd, Htk.
+  exact (tunnel_complete rc c a id0 ops st pkts t0 Hc Hcompat Hid Hns Hlen Hsz Hrun Hpk Hwf Hnone).
+Qed.
+
 Section MiniOverPacketized.
 
 Variable deflate : N -> list byte -> option (list byte).
